@@ -18,6 +18,10 @@
 (* Verdicts are non-blocking: a FAIL names the front end and the first     *)
 (* differing field and mutes that front end until the next `reset`.        *)
 (*                                                                         *)
+(* Deviation S25a (CLI, HTTP): ids with surrounding white space are        *)
+(* accepted by add everywhere, but `searchlite delete` trims each id line  *)
+(* (deleting a different id) and POST /delete refuses such an id.          *)
+(*                                                                         *)
 (* Deviation S23a (HTTP): a rejected /add or /bulk calls writer.rollback() *)
 (* and so drops every operation queued (and acknowledged) before it.  The  *)
 (* model keeps, next to the ideal state, the state this produces; when     *)
@@ -49,7 +53,16 @@ Say(kind, e, extra) ==
 DevEffect(fe, op, s) ==
   IF fe = "http" /\ op.kind \in {"add", "update"} /\ ~AllValid(op.docs)
     THEN [s EXCEPT !.wal = <<>>]
-    ELSE Effect(fe, op, s)
+  ELSE IF fe = "cli" /\ op.kind = "delete"
+    THEN [s EXCEPT !.wal = @ \o DelOps(TrimmedIdsOf(op))]   \* S25a: the id lines are trimmed
+  ELSE Effect(fe, op, s)
+
+(* S25a, HTTP side: /delete refuses an id with surrounding white space     *)
+(* (400) although /add accepted the document and the Rust API deletes it.  *)
+HttpRefusesPadded(fe, op, o) ==
+  fe = "http" /\ op.kind = "delete" /\ AnyPadded(op) /\ ~o.ok
+
+DevId(fe, op) == IF op.kind = "delete" \/ fe = "cli" THEN "S25a" ELSE "S23a"
 
 (* Judgement of one execution at one step: a record                        *)
 (*   [st, alt, verdict, field, why]  verdict in ok | fail | dev | skip     *)
@@ -63,6 +76,9 @@ StepFe(fe, e) ==
   IN
   IF ~o.ran THEN keep
   ELSE IF fe \in muted THEN keep
+  ELSE IF HttpRefusesPadded(fe, op, o) THEN
+         [keep EXCEPT !.verdict = "dev", !.field = "ok",
+                      !.why = "delete of an id with surrounding white space is refused although the Rust API deletes it"]
   ELSE IF o.ok # ExpectedOk(fe, op, ref.ok) THEN
          [keep EXCEPT !.verdict = "fail", !.field = "ok",
                       !.why = IF o.ok THEN "call succeeded where the Rust API fails"
@@ -75,10 +91,14 @@ StepFe(fe, e) ==
          IF ~OneCopyPerId(o.contents) THEN
               [keep EXCEPT !.verdict = "fail", !.field = "contents", !.why = "an id is returned twice"]
          ELSE IF seen = ns.committed THEN
-              [st |-> ns, alt |-> ns, verdict |-> "ok", field |-> "", why |-> ""]
+              \* the ideal explains it; the deviation state survives only while it explains it too
+              [st |-> ns, alt |-> IF seen = na.committed THEN na ELSE ns,
+               verdict |-> "ok", field |-> "", why |-> ""]
          ELSE IF seen = na.committed THEN
               [st |-> na, alt |-> na, verdict |-> "dev", field |-> "contents",
-               why |-> "contents equal the fold without the operations queued before a rejected add"]
+               why |-> IF fe = "cli"
+                         THEN "contents equal the fold with the trimmed ids deleted instead of the ids given"
+                         ELSE "contents equal the fold without the operations queued before a rejected add"]
          ELSE [keep EXCEPT !.verdict = "fail", !.field = "contents",
                            !.why = "contents differ from the fold of the committed operations"]
   ELSE IF op.kind = "search" /\ fe # Ref(fe) /\ ref.ran /\ Ref(fe) \notin muted THEN
@@ -127,7 +147,7 @@ Step(e) ==
             Say("FAIL", e, [frontend |-> fe, field |-> R[fe].field, why |-> R[fe].why,
                             note |-> e.obs[fe].note, reference |-> Ref(fe)])
        /\ R[fe].verdict = "dev" =>
-            Say("DEV", e, [deviation |-> "S23a", frontend |-> fe, field |-> R[fe].field,
+            Say("DEV", e, [deviation |-> DevId(fe, e.op), frontend |-> fe, field |-> R[fe].field,
                            why |-> R[fe].why])
   \* model sanity: once everything is committed both reference executions hold the same contents
   /\ (e.op.kind = "commit" /\ {"lib", "libffi"} \cap (muted \cup bad) = {}
